@@ -36,7 +36,7 @@ def main() -> int:
         # C01: one sample of the second block altered; then the reported count altered
         names, files, vals = c01.make_set(d, "st1", 9, 2, 8, [4, 5], nrng, "random")
         ev = c01.record_plan(FilReader(names), 4, 1, 7, 1)
-        good = {"hdr": {"files": files, "nbits": 8, "nchans": 2, "vals": vals, "N": 9, "gulp": 4, "start": 1, "nsamps": 7, "skip": 1}, "ev": ev}
+        good = {"hdr": {"files": files, "nbits": 8, "nchans": 2, "vals": vals, "novals": False, "N": 9, "gulp": 4, "start": 1, "nsamps": 7, "skip": 1}, "ev": ev}
         bad = copy.deepcopy(good)
         bad["ev"][1]["vals"][3] ^= 1
         _expect("Trace_ReadPlan", good, bad, "C01 block content", at=2)
